@@ -27,10 +27,21 @@ PROP = dict(
         "idealisation: collision-freedom of H on the two canonical representations (CollisionFree H [canonRepr .., canonRepr ..]); "
         "it distinguishes destinations fully and bodies by their representation hash; the canonical cells must be well "
         "formed (Spec.WFExotic) and within the depth limit",
-        "source_boc_roundtrip goes through C01 roundtrip_go_writer (the writer's order is a theorem there, order_valid): the "
-        "premises left are that the writer's de-duplication key (hex representation hash) identifies the sub-cells of the "
-        "one source cell (KeyInjOn: no hash collision inside it) and the format's size limits; on the Go side "
-        "DeserializeBoc(SourceBoc()) is checked directly for every real transaction, with and without hasher",
+        "source_boc_roundtrip is stated for THE order o and THE bytes the writer model returns (hypotheses "
+        "orderWith .. goSpecial = ok o, serializeBocModel .. = ok bs; their existence is source_boc_writer_succeeds) and "
+        "concludes parseBoc bs = ok (o.table, o.roots), the root unfolds to the decoded cell, reprHash = reported hash; it is "
+        "built from C01's pieces (orderWith_valid, OrderValid.once/sub, C01.roundtrip) in Lemmas/SourceBocPinned.lean. "
+        "Premises: the writer's de-duplication key identifies the sub-cells of the one source cell (KeyInjOn: no hash "
+        "collision inside it — discharged from CollisionFree for level-0 cells in source_boc_end_to_end, NOT dischargeable "
+        "that way for a source cell with pruned branches, where it stays a premise), and the size limit as a condition "
+        "on the INPUT: fewer than 2^24 structurally distinct sub-cells (SubCellsBelow). That the output is shorter than "
+        "2^63 bytes is derived (serializeOrdered_length_lt). On the Go side DeserializeBoc(SourceBoc()) is checked directly "
+        "for every real transaction, with and without hasher",
+        "the model's SourceBoc takes the serialiser as a parameter (TongoModel is core Lean and cannot import the proofs-side "
+        "presentation cellTable / goKey); the theorems source_boc_end_to_end and source_boc_of_mutable_cell_parses_back "
+        "instantiate it with SourceBoc.goSourceBoc = C01's serializeBocModel on cellTable c keyed by the representation "
+        "hash. The driver does not print SourceBoc bytes: the bytes are tied by C01's boc.serialize op, the C16 check of "
+        "SourceBoc is the direct oracle go.tx.hash / go.tx.seq (parse back, compare hash)",
         "layout_matches_go_descriptor ties the hand-written bit layout to the descriptor regenerated from tlb/messages.go "
         "through C04 impl_eq_spec_Message, in the domain of the transcribed block.tlb (anycast depth <= 30, no extra "
         "currencies, empty state-init library, ordinary body cell)",
@@ -52,32 +63,44 @@ PROP = dict(
     partial=[
         "decode-after-encode is proved for all three kinds (msg_roundtrip_all_kinds) with extra currencies absent; an internal "
         "message carrying an extra-currency dictionary is covered by the correspondence only",
-        "by construction (they unfold the tree-level definitions, marked so in their docstrings): msg_hash_tree_level, "
-        "msg_fields_tree_level, tx_capture_tree_level, non_extin_unchanged, norm_hash_def; norm_depends_only_on_dest_body is "
-        "immediate from norm_hash_def — the content of 'depends only on destination and body' is "
-        "norm_ignores_src_fee_init_placement (encode -> decode end to end)",
+        "by construction (they unfold the tree-level definitions, marked so in their docstrings; NOT counted among the "
+        "results in level_text): msg_hash_tree_level, msg_fields_tree_level, tx_capture_tree_level, non_extin_unchanged "
+        "(internal / external-out: Hash(true) = Hash(false) is how hashOf is defined), norm_hash_def (what the normalised "
+        "hash is), the first conjunct of msg_roundtrip_all_kinds (reprHash c = m.hash, = msg_hash_tree_level), "
+        "source_boc_tracks_last_decode / source_boc_and_hash_do_not_change_state (an induction over the op list of a "
+        "three-line state machine); norm_depends_only_on_dest_body is immediate from norm_hash_def — the content of "
+        "'depends only on destination and body' is norm_ignores_src_fee_init_placement (encode -> decode end to end)",
+        "C02's msg_tx_hash_is_spec goes through the tree-level lemmas; the heap-level composition with C02 "
+        "reprHash_eq_spec is msg_hash_is_spec_hash here (messages; for transactions compose tx_hash_is_cell_hash the same way)",
     ],
     level_text="Theorems for ALL inputs about the model. On MUTABLE cells: for a cell in any cursor state (partly read, left "
                "over from an earlier decode, descendants likewise) and a decoder with any valid hasher memo table or none, "
                "Message.UnmarshalTLB reports Cell.Hash of the tree the pointer denotes and the fields decoded from the first "
                "bit and first reference — a closed form that mentions neither cursors nor the hasher (msg_hash_is_cell_hash, "
-               "msg_hash_hasher_and_cursor_independent, derived from C02 cache soundness, not assumed); the same for "
+               "msg_hash_hasher_and_cursor_independent, derived from C02 cache soundness, not assumed; msg_hash_is_spec_hash: "
+               "on well-formed trees that hash is Spec.reprHash of the TON definition); the same for "
                "transactions (tx_hash_is_cell_hash, source_boc_of_mutable_cell); an enclosing record with k ^Message / "
                "^Transaction fields reports for each the hash of ITS source cell (enclosing_record_message_hashes, "
                "enclosing_record_tx_hashes; acyclicity of the heap below a pointer that denotes a tree is proved). On "
-               "immutable trees: the normalised hash equals the hash of the canonical cell and is "
-               "the schema-level re-encoding of the canonical parts, which is a fixed point (norm_hash_def, "
+               "immutable trees: the normalised hash (by definition the hash of the canonical cell) is "
+               "the hash of the schema-level re-encoding of the canonical parts, which is a fixed point ("
                "norm_is_canonical_reencoding, canonical_is_fixed_point); it depends only on (destination without a standard "
                "address's anycast, body) — proved end to end through encode → decode for every well-formed source address, "
                "import fee < 2^120, absent/inline/referenced state-init and inline/referenced body "
                "(norm_ignores_src_fee_init_placement, body_inline_eq_ref; address, VarUInteger 16 and StateInit "
                "decode-after-encode lemmas); different destinations or bodies give different normalised hashes under the "
-               "collision-freedom of H on the two canonical representations (norm_distinguishes; canonRepr_injective, encodeAddr_injective proved); non-ext-in unchanged; "
-               "decode-after-encode for internal, external-in and external-out messages (msg_roundtrip_all_kinds); the layout is "
+               "collision-freedom of H on the two canonical representations (norm_distinguishes; canonRepr_injective, encodeAddr_injective proved); "
+               "decode-after-encode of info, init and body for internal, external-in and external-out messages "
+               "(msg_roundtrip_all_kinds, conjuncts 2-4); the layout is "
                "the one block.tlb prescribes and the one of the regenerated Go descriptor (layout_is_block_tlb, "
                "layout_matches_go_descriptor: a changed struct tag in tlb/messages.go breaks an obligation); "
-               "source_boc_roundtrip through C01 roundtrip_go_writer (whole Go writer, order included); source_boc_tracks_last_decode: on ONE reused Transaction variable "
-               "SourceBoc and Hash are functions of the LAST decoded source, whatever the order of the calls. "
+               "source_boc_roundtrip: for THE order o and THE bytes bs the whole Go writer model returns (no chosen witness, no "
+               "guard: parseBoc bs = ok (o.table, o.roots), root unfolds to the decoded cell, hash equal), size limit as a "
+               "hypothesis on the input cell (< 2^24 distinct sub-cells), output length derived; with a regression example "
+               "that the padded-table proof of the earlier statement no longer applies; source_boc_end_to_end / "
+               "source_boc_of_mutable_cell_parses_back: the same after ANY sequence of decode/SourceBoc/Hash calls on one "
+               "reused variable, resp. for the lazy SourceBoc of a mutable cell, with the concrete writer "
+               "(goSourceBoc) and level-0 cells. "
                "Tie: exact comparison of Go's Hash(false)/Hash(true) with the model on ~11k messages and ~2k transactions per run "
                "(plain and hasher-carrying decoders, with and without a pruned branch below the source cell), msg.hash.moved: the message cell handed over with cursors moved and the hasher warmed), plus direct oracles (hash == Cell.Hash with/without hasher, moved cursors, enclosing "
                "records, equal/unequal classes, canonical re-encoding through tlb.Marshal, SourceBoc parsed back, Hash(true) "
